@@ -74,3 +74,65 @@ def totals(h):
     ae = h.getattr(s, '_all_bestEnergy')
     h.check('per-member-best-energies', 'len(ae) == k and ' + ' and '.join('ae[%d] == m%d.bestEnergy' % (i, i) for i in range(k)),
             ae=ae, k=k, **{'m%d' % i: m for i, m in enumerate(members)})
+
+
+# ---------------------------------------------------------------------------- collecting the members after a map
+def _mon(h, tag, n, label):
+    return h.obj(MON, _x=h.clist([h.real('%s_x%d' % (tag, i)) for i in range(n)]), _y=h.clist([h.real('%s_y%d' % (tag, i)) for i in range(n)]),
+                 _id=h.clist([None] * n), _info=h.clist([]), k=None, _npts=None, label=label)
+
+
+def _update_all(h, copying):
+    """two member slots; slot i held `old` step records and `olde` evaluation records before the map; the map returns, per
+    slot, the solver that ran (the same object for an in-process map, a copy for a process pool) and its monitors'
+    contents (all records: the old ones followed by the new ones)"""
+    if not h.is_sym():
+        h.unsupported('symbolic only')
+    shapes = h.choice('records', [((0, 0), (2, 5)), ((2, 4), (3, 6)), ((1, 3), (1, 3))])     # (old step, old eval), (all step, all eval)
+    (ls, le), (ns, ne) = shapes
+    slots, returned, results, olds = [], [], [], []
+    for i in range(2):
+        sm, em = _mon(h, 'm%d_s' % i, ls, 's'), _mon(h, 'm%d_e' % i, le, 'e')
+        fc = h.int('fcalls_%d' % i)
+        h.assume('fc >= 1', fc=fc)
+        member = h.obj(None, _stepmon=sm, _evalmon=em, _fcalls=h.clist([fc]), id=i)
+        slots.append(member)
+        olds.append((h.snapshot(h.field(sm, '_x')), h.snapshot(h.field(em, '_x'))))
+        if copying:
+            # the worker's copy: its monitors start as copies of the slot's and have grown
+            rs = h.obj(MON, _x=h.clist(list(h.st.heap[h.field(sm, '_x')]) + [h.real('r%d_sx%d' % (i, j)) for j in range(ns - ls)]),
+                       _y=h.clist(list(h.st.heap[h.field(sm, '_y')]) + [h.real('r%d_sy%d' % (i, j)) for j in range(ns - ls)]),
+                       _id=h.clist([None] * ns), _info=h.clist([]), k=None, _npts=None, label='s')
+            re_ = h.obj(MON, _x=h.clist(list(h.st.heap[h.field(em, '_x')]) + [h.real('r%d_ex%d' % (i, j)) for j in range(ne - le)]),
+                        _y=h.clist(list(h.st.heap[h.field(em, '_y')]) + [h.real('r%d_ey%d' % (i, j)) for j in range(ne - le)]),
+                        _id=h.clist([None] * ne), _info=h.clist([]), k=None, _npts=None, label='e')
+            ret = h.obj(None, _stepmon=rs, _evalmon=re_, _fcalls=h.clist([h.field(h.field(member, '_fcalls'), 0) if False else fc]), id=i)
+        else:
+            for mon_, tag, a, b in ((sm, 's', ls, ns), (em, 'e', le, ne)):
+                for f in ('_x', '_y'):
+                    h.st.heap[h.field(mon_, f)].extend(h.real('r%d_%s%s%d' % (i, tag, f, j)) for j in range(b - a))
+                h.st.heap[h.field(mon_, '_id')].extend([None] * (b - a))
+            ret, rs, re_ = member, sm, em
+        returned.append(ret)
+        allx = (h.snapshot(h.field(rs, '_x')), h.snapshot(h.field(re_, '_x')))
+        results.append(h.tup(ret, h.tup(h.clist(list(h.st.heap[h.field(rs, '_x')])), h.clist(list(h.st.heap[h.field(rs, '_y')])),
+                                         h.clist([None] * ns), h.clist([])),
+                             h.tup(h.clist(list(h.st.heap[h.field(re_, '_x')])), h.clist(list(h.st.heap[h.field(re_, '_y')])),
+                                   h.clist([None] * ne), h.clist([]))))
+        olds[-1] = olds[-1] + allx
+    s = h.obj(ENS, _allSolvers=h.clist(slots))
+    h.call(h.getattr(s, '_AbstractEnsembleSolver__update_allSolvers'), h.clist(results))
+    al = h.field(s, '_allSolvers')
+    for i in range(2):
+        e = dict(al=al, ret=returned[i], olds=olds[i][0], olde=olds[i][1], alls=olds[i][2], alle=olds[i][3], ls=ls, le=le, ns=ns, ne=ne)
+        h.check('every-slot-holds-the-solver-returned-for-it', 'same(al[%d], ret)' % i, **e)
+        h.check('step-monitor-is-the-old-records-followed-by-the-new-ones',
+                'len(al[%d]._stepmon._x) == ns and seq_eq(al[%d]._stepmon._x, alls)' % (i, i), **e)
+        h.check('evaluation-monitor-is-the-old-records-followed-by-the-new-ones',
+                'len(al[%d]._evalmon._x) == ne and seq_eq(al[%d]._evalmon._x, alle)' % (i, i), **e)
+
+
+contract('C09/ensemble.__update_allSolvers/in-process-map', ['C09', 'C07'], ENS + '.__update_allSolvers', native=False)(
+    lambda h: _update_all(h, False))
+contract('C09/ensemble.__update_allSolvers/copying-map', ['C09', 'C07'], ENS + '.__update_allSolvers', native=False)(
+    lambda h: _update_all(h, True))
